@@ -9,9 +9,9 @@
 
 #include "asn1p_integer.h"
 
-#define ASN_INTEGER_MAX    \
-    (~((asn1c_integer_t)0) \
-     & ~((asn1c_integer_t)1 << (8 * sizeof(asn1c_integer_t) - 1)))
+/* Computed without shifting a one into the sign bit (undefined behavior). */
+#define ASN_INTEGER_MAX \
+    ((((asn1c_integer_t)1 << (8 * sizeof(asn1c_integer_t) - 2)) - 1) * 2 + 1)
 #define ASN_INTEGER_MIN (-(ASN_INTEGER_MAX)-1)
 
 /*
